@@ -158,19 +158,36 @@ def encodeFrom (items : List Item) (dmax : Nat) : Nat → Nat → List Tok
 
 def encodeToks (dmax : Nat) (items : List Item) : List Tok := encodeFrom items dmax 0 (dmax + 1)
 
-def showTok : Tok → String
-  | .depth d => s!"{d}/"
-  | .cell i => s!"{i} "
-  | .range s e => s!"{s}-{e - 1} "
+/-! ### Writer, character level
 
-/-- Text without folding, `start-end` notation (what `to_ascii_ivoa(None, false)` writes). -/
-def encodeText (dmax : Nat) (items : List Item) : String :=
+  Decimal printing is defined here (not `Nat.repr`) so that the text the driver compares with the real
+  writer's output is the very definition the character-level round-trip theorems are about. -/
+
+def digitOf : Nat → Char
+  | 0 => '0' | 1 => '1' | 2 => '2' | 3 => '3' | 4 => '4'
+  | 5 => '5' | 6 => '6' | 7 => '7' | 8 => '8' | _ => '9'
+
+/-- Decimal digits of `n`, most significant first (`Display for uN`). -/
+def showNat (n : Nat) : List Char :=
+  if n < 10 then [digitOf n] else showNat (n / 10) ++ [digitOf (n % 10)]
+termination_by n
+decreasing_by omega
+
+def showTokC : Tok → List Char
+  | .depth d => showNat d ++ ['/']
+  | .cell i => showNat i ++ [' ']
+  | .range s e => showNat s ++ '-' :: (showNat (e - 1) ++ [' '])
+
+/-- Characters without folding, `start-end` notation (what `to_ascii_ivoa(None, false)` writes). -/
+def encodeChars (dmax : Nat) (items : List Item) : List Char :=
   let ts := encodeToks dmax items
-  let body := String.join (ts.map showTok)
+  let body := (ts.map showTokC).flatten
   -- a bare trailing "d/" is written as "d/ "
   match ts.getLast? with
-  | some (.depth _) => body ++ " "
+  | some (.depth _) => body ++ [' ']
   | _ => body
+
+def encodeText (dmax : Nat) (items : List Item) : String := String.ofList (encodeChars dmax items)
 
 /-- The cell ranges the writer is fed with (`RangeMOC → cells → cellranges`). -/
 def itemsOf (q : Qty) (w d : Nat) (rs : List Rng) : List Item :=
